@@ -47,7 +47,8 @@ type Config struct {
 }
 
 func childMain(cfg Config) {
-	scratch, _ := os.MkdirTemp("", "verif-tqmon-")
+	// scratch lives inside the parent's temporary directory, which the parent removes
+	scratch, _ := os.MkdirTemp(filepath.Dir(*fOut), "scratch-")
 	defer os.RemoveAll(scratch)
 	out, err := os.OpenFile(*fOut, os.O_WRONLY|os.O_CREATE|os.O_APPEND, 0o644)
 	if err != nil {
@@ -275,6 +276,7 @@ func Main(cfg Config) {
 	run.Set("race_reports_dedup", raceSamples)
 	run.Set("distinct_hook_trace_shapes", len(shapes))
 	_ = time.Now
+	os.RemoveAll(tmp) // Finish ends the process; deferred calls would not run
 	run.Finish()
 }
 
